@@ -10,6 +10,7 @@ import PyTough.Model.ListingNav
 import PyTough.Proofs.ListingNav
 import PyTough.Proofs.ListingSeriesNavFrame
 import PyTough.Proofs.ListingSeriesCovers
+import PyTough.Proofs.ListingSeries2Nav
 
 namespace Props.C07
 open Py Model.Nav Proofs.Nav
@@ -266,6 +267,58 @@ example : setNearest exNav (fun (a b : Int) => decide (a < b)) distInt [10, 20, 
     setNearest exNav (fun (a b : Int) => decide (a < b)) distInt [10, 20, 40] 31 (0, 0) = .ok (2, 20) ∧
     setNearest exNav (fun (a b : Int) => decide (a < b)) distInt [10, 20, 40] 5 (0, 0) = .ok (0, 0) ∧
     setNearest exNav (fun (a b : Int) => decide (a < b)) distInt [10, 20, 40] 99 (0, 0) = .ok (2, 20) := by decide
+
+/-! ### every action is `index = k` for the index `k` the action computes
+
+  `Proofs.Series2Nav.ActionIndex lt dist times steps n i op k` — "from current index `i`, with `n` results, action `op` computes
+  index `k`" — is, action by action:  first: `k = 0`;  last: `k + 1 = n`;  next: `i + 1 < n ∧ k = i + 1`;  prev: `0 < i ∧ k = i - 1`;
+  index = j: `0 ≤ j ∧ k = j` or `j < 0 ∧ k = j + n`;  time = t / step = x: `NearestSel … times t k` / `NearestSel … steps x k`,
+  where `NearestSel lt dist vals t k` says: `t < vals[0] ∧ k = 0`, or else `vals[len-1] < t ∧ k = len - 1`, or else `k` is the FIRST
+  index at minimal distance (`∀ j, ¬ dist vals[j] t < dist vals[k] t` and `∀ j < k, dist vals[k] t < dist vals[j] t`). -/
+
+open Model.Listing Proofs.Series2Nav Proofs.NavOn in
+/-- The whole-file reader, every simulator family, exact times (ℚ) and steps (ℤ), from any state showing an index in range: a
+    successful first / last / next / prev / index = j / time = t / step = x either
+    * is `next` at the last index or `prev` at the first: it reports False and the reader is unchanged, or
+    * is a returning `history`: the reader is unchanged, or
+    * reports True and leaves EXACTLY the reader state that `index = k` leaves from the same state (so in particular the same
+      view: index, time, step, every table cell), with `s.index = k`, for the `k < n` the action computes (`ActionIndex`, spelled
+      out above): k = 0, n-1, i+1, i-1, j (or j+n), the nearest-selection index. -/
+theorem file_action_is_set_index (rd : Rd) (times : List Rat) (steps : List Int)
+    (hnt : times.length = rd.fulltimes.size) (hns : steps.length = rd.fulltimes.size)
+    (op : Op Rat) (v s : Rd) (b : Bool) (hv : 0 ≤ v.index ∧ v.index < rd.fulltimes.size)
+    (h : apply (fileNav rd) (fun a b => decide (a < b)) distRat times steps op v = .ok (b, s)) :
+    (b = false ∧ s = v ∧ ((op = .next ∧ v.index = (rd.fulltimes.size : Int) - 1) ∨ (op = .prev ∧ v.index = 0))) ∨
+    (b = true ∧ s = v ∧ op = .history) ∨
+    (b = true ∧ ∃ k : Nat, k < rd.fulltimes.size ∧
+      ActionIndex (fun a b => decide (a < b)) distRat times steps rd.fulltimes.size v.index op k ∧
+      setIndex (fileNav rd) (k : Int) v = .ok s ∧ s.index = k ∧
+      (setIndex (fileNav rd) (k : Int) v).map fileView = .ok (fileView s)) := by
+  rcases action_is_set_index (fileNav rd) _ distRat nearestOrder_rat.sw times steps hnt hns op v s b hv h with h1 | h1 | ⟨hb, k, hk, hc, hs, hl⟩
+  · exact .inl h1
+  · exact .inr (.inl h1)
+  · exact .inr (.inr ⟨hb, k, hk, hc, hs, file_load_sets_index rd _ _ _ hl, by rw [hs]; rfl⟩)
+
+open Model.Listing Proofs.Series2Nav in
+/-- `next()` at the last index and `prev()` at the first return False and change nothing — for every file, from every state
+    (no hypothesis on the file; nothing is read). -/
+theorem file_next_prev_at_ends (rd : Rd) (v : Rd) :
+    (v.index ≥ (rd.fulltimes.size : Int) - 1 → next (fileNav rd) v = .ok (false, v)) ∧
+    (v.index ≤ 0 → prev (fileNav rd) v = .ok (false, v)) :=
+  ⟨next_at_last (fileNav rd) v, prev_at_first (fileNav rd) v⟩
+
+section actionExample
+open Model.Listing
+-- on the two-result file above, from the reader positioned at index 1: `time = 2` (nearer to 0 than to 5) succeeds, reports True and
+-- shows index 0; `next` reports False and leaves the state; the hypotheses of file_action_is_set_index hold
+example : ([0, 5] : List Rat).length = exRd.fulltimes.size ∧ ([1, 2] : List Int).length = exRd.fulltimes.size ∧
+    0 ≤ (exAt 1).index ∧ (exAt 1).index < exRd.fulltimes.size := by decide +kernel
+example : (match apply (fileNav exRd) (fun (a b : Rat) => decide (a < b)) distRat [0, 5] [1, 2] (.time 2) (exAt 1) with
+    | .ok (b, s) => b && s.index == 0
+    | .error _ => false) = true := by decide +kernel
+example : apply (fileNav exRd) (fun (a b : Rat) => decide (a < b)) distRat [0, 5] [1, 2] .next (exAt 1) = .ok (false, exAt 1) := by decide +kernel
+example : (exAt 1).index ≥ (exRd.fulltimes.size : Int) - 1 ∧ (exAt 0).index ≤ 0 := by decide +kernel
+end actionExample
 
 /-! ### a history() call that returns leaves index and tables as they were -/
 
